@@ -700,6 +700,16 @@ func (p c02) Run(w *mon.Worker, idx int) mon.Result {
 				}
 			}
 		}
+		// the same write spelled with(): `with(P; . = v)` creates what `P = v` creates
+		if idx%3 == 0 && ref.EqualNum(got, want) {
+			wexpr := "with(" + pstr + "; . = " + ref.Lit(v).String() + ")"
+			wgot, _, werr := evalDoc(wexpr, doc)
+			res.Evals++
+			if werr != nil || wgot == nil || !ref.EqualNum(wgot, want) {
+				return fail("`%s` gives %s, `%s` gives %v (err %v)\n doc %s", expr, got, wexpr, wgot, werr, doc)
+			}
+			res.Tags = append(res.Tags, "with_form")
+		}
 		// (i) put-get on yq's own output, model-free apart from the target list
 		for _, t := range targets {
 			x, ok := got.GetPath(t.Path)
